@@ -71,8 +71,8 @@ func encFaults(entry string, a *algInfo, k *cryptokeys.Key, ptLen int) (present 
 	return present, k.Family == "RSA" && k.Private
 }
 
-func evalAsymEnc(c Case) []finding {
-	a, k := algByName[c.Alg], keyByID[c.Key]
+func (e *env) evalAsymEnc(c Case) []finding {
+	a, k := algByName[c.Alg], e.keyByID[c.Key]
 	p, ad := asymPT(c.PT), aads[c.AAD]
 	var chain []siteConds
 	for _, entry := range []string{"EncryptPublicKey", "Encrypt"} {
@@ -94,7 +94,7 @@ func evalAsymEnc(c Case) []finding {
 				cs = []cond{{"output-with-error", o.String()}}
 			}
 		default:
-			priv := cryptokeys.Asym(cryptokeys.RSAPriv, k.Which)
+			priv := e.asym(cryptokeys.RSAPriv, k.Which)
 			label := ad
 			back, err := cryptoref.RSADecrypt(a.Ref, priv.RSA, o.a, label)
 			if err != nil || !bytes.Equal(back, p) {
@@ -120,10 +120,10 @@ func evalAsymEnc(c Case) []finding {
 
 // asymCiphertext is the reference's encryption (constant-stream randomness)
 // under RSA key A, or 256 arbitrary bytes when there is nothing to encrypt.
-func asymCiphertext(a *algInfo, ptLen int, ad []byte) (ct, want []byte) {
+func (e *env) asymCiphertext(a *algInfo, ptLen int, ad []byte) (ct, want []byte) {
 	if a.Known && a.Ref.AsymEnc() && ptLen <= a.Ref.RSAMaxPlaintext(256) {
 		want = asymPT(ptLen)
-		ct, err := cryptoref.RSAEncrypt(a.Ref, &cryptokeys.Asym(cryptokeys.RSAPub, "A").RSA.PublicKey, want, ad)
+		ct, err := cryptoref.RSAEncrypt(a.Ref, &e.asym(cryptokeys.RSAPub, "A").RSA.PublicKey, want, ad)
 		if err != nil {
 			panic(err)
 		}
@@ -142,10 +142,10 @@ func decFaults(entry string, a *algInfo, k *cryptokeys.Key) cryptoref.Fault {
 	return 0
 }
 
-func evalAsymDec(c Case) []finding {
-	a, k := algByName[c.Alg], keyByID[c.Key]
+func (e *env) evalAsymDec(c Case) []finding {
+	a, k := algByName[c.Alg], e.keyByID[c.Key]
 	ad := aads[c.AAD]
-	ct, want := asymCiphertext(a, c.PT, ad)
+	ct, want := e.asymCiphertext(a, c.PT, ad)
 	if c.Mut != nil {
 		switch c.Mut.Comp {
 		case "ciphertext":
@@ -281,8 +281,8 @@ func sigCond(a *algInfo, k *cryptokeys.Key, cs []cond) []cond {
 	return cs
 }
 
-func evalSign(c Case) []finding {
-	a, k := algByName[c.Alg], keyByID[c.Key]
+func (e *env) evalSign(c Case) []finding {
+	a, k := algByName[c.Alg], e.keyByID[c.Key]
 	d := digest(0, c.PT)
 	var s sink
 	what := fmt.Sprintf("alg=%q key=%s digest=%d bytes", a.Name, k, c.PT)
@@ -315,7 +315,7 @@ func evalSign(c Case) []finding {
 	if !cryptoref.Verify(a.Ref, refPub(k), d, o.a) {
 		add("SignPrivateKey", []cond{{"signature-rejected-by-reference", fmt.Sprintf("signature %s does not verify under the standard library called directly", hx(o.a))}})
 	}
-	pub := cryptokeys.Partner(k)
+	pub := e.partner(k)
 	if v := kitVerify(d, clip(o.a), a.Name, pub.JWK); v.pan != nil || v.err != nil || !v.ok {
 		add("VerifyPublicKey", []cond{{"roundtrip-failed", fmt.Sprintf("own signature not accepted with the public key: %s", v)}})
 	}
@@ -325,7 +325,7 @@ func evalSign(c Case) []finding {
 		add("VerifyPublicKey", []cond{{"roundtrip-failed", fmt.Sprintf("own signature not accepted with the private key handed in: %s", v)}})
 	}
 	// another key pair of the same kind must not accept it
-	other := cryptokeys.Asym(pub.Kind, map[string]string{"A": "B", "B": "A"}[k.Which])
+	other := e.asym(pub.Kind, map[string]string{"A": "B", "B": "A"}[k.Which])
 	if v := kitVerify(d, clip(o.a), a.Name, other.JWK); v.pan != nil || v.ok {
 		add("VerifyPublicKey", []cond{{"signature-of-another-key-accepted", fmt.Sprintf("signature made with %s verified with %s: %s", k, other, v)}})
 	}
@@ -334,7 +334,7 @@ func evalSign(c Case) []finding {
 
 // refSignature signs with the reference (constant-stream randomness) using key
 // A of the family the algorithm requires.
-func refSignature(a *algInfo, d []byte) (sig []byte, signer *cryptokeys.Key, err error) {
+func (e *env) refSignature(a *algInfo, d []byte) (sig []byte, signer *cryptokeys.Key, err error) {
 	var kind cryptokeys.Kind
 	switch a.Ref.KeyFamily() {
 	case "RSA":
@@ -348,13 +348,13 @@ func refSignature(a *algInfo, d []byte) (sig []byte, signer *cryptokeys.Key, err
 	case "Ed25519":
 		kind = cryptokeys.Ed25519Prv
 	}
-	signer = cryptokeys.Asym(kind, "A")
+	signer = e.asym(kind, "A")
 	sig, err = cryptoref.Sign(a.Ref, refPriv(signer), d)
 	return sig, signer, err
 }
 
-func evalVerify(c Case) []finding {
-	a, k := algByName[c.Alg], keyByID[c.Key]
+func (e *env) evalVerify(c Case) []finding {
+	a, k := algByName[c.Alg], e.keyByID[c.Key]
 	d := digest(c.AAD, c.PT) // AAD doubles as the digest index
 	var s sink
 	what := fmt.Sprintf("alg=%q key=%s digest#%d=%d bytes mutation %s", a.Name, k, c.AAD, c.PT, c.Mut)
@@ -380,7 +380,7 @@ func evalVerify(c Case) []finding {
 	if !digestFits(a, c.PT) {
 		return nil
 	}
-	sig, signer, err := refSignature(a, d)
+	sig, signer, err := e.refSignature(a, d)
 	if err != nil {
 		return []finding{{"machinery/reference-sign-failed", err.Error()}}
 	}
